@@ -41,6 +41,9 @@ type CompactBody struct {
 	TriggerMs []int          `json:"trigger_ms"`
 	SettleMs  int            `json:"settle_ms"`
 	Points    []CompactPoint `json:"points"`
+	// SlowRewriteMs > 0: every write to the compaction's temporary files takes that long (a slow
+	// disk), so that appends and log rotations go on while one compaction is running
+	SlowRewriteMs int `json:"slow_rewrite_ms,omitempty"`
 }
 
 func genCompact(prop string, seed uint64, tier string) *Scenario {
@@ -81,6 +84,9 @@ func genCompact(prop string, seed uint64, tier string) *Scenario {
 	}
 	for i := 0; i < np; i++ {
 		body.Points = append(body.Points, CompactPoint{Comp: r.Intn(64), Step: r.Intn(64), Fin: r.Intn(4) == 0})
+	}
+	if sl := ssched.Sub(seed, "slowrewrite"); sl.Intn(3) == 0 {
+		body.SlowRewriteMs = []int{5, 20, 60, 200}[sl.Intn(4)]
 	}
 	raw, _ := json.Marshal(body)
 	k := genKnobs(r)
@@ -131,6 +137,16 @@ func runCompact(w *World) {
 	_ = realos.MkdirAll(rr.dir, 0755)
 	sos.D.OnOp = func(e *sos.JEntry) {
 		w.logf("DISK #%d n%d %s %s %s off=%d len=%d fail=%v [%s]%s", e.Idx, e.Node, e.Op, filepath.Base(e.Path), filepath.Base(e.Path2), e.Off, len(e.Data), e.Fail, e.Task, describeAofWrite(e))
+	}
+	if body.SlowRewriteMs > 0 {
+		sos.D.Inject = func(node int, op, path string, n int, idx int) *sos.Fault {
+			if op == "write" && node < 100 && strings.Contains(filepath.Base(path), "rewrite.aof.tmp") {
+				w.probe("slow_rewrite_writes")
+				return &sos.Fault{Delay: time.Duration(body.SlowRewriteMs) * time.Millisecond}
+			}
+			return nil
+		}
+		defer func() { sos.D.Inject = nil }()
 	}
 	ssched.SpawnOn(0, "compact-driver", func() {
 		defer func() { rr.done = true }()
@@ -300,10 +316,11 @@ func runCompact(w *World) {
 			if p.cls == "compaction_changed_recoverable_state" {
 				// a completed compaction filters the records by the lock table of its moment, while the
 				// uncompacted files hold what had reached them by journal call j: a key whose state
-				// changed in memory around the compaction (a release or an expiry whose record is still on
-				// its way to the file) legitimately differs between the two until that record lands; such
-				// keys are left out here (every other key, and every crash point, is compared in full)
-				for k := range inFlux(rr.h, sos.D.J[p.c.calls[0]].Step, sos.D.J[p.j].Step) {
+				// changed in memory in the last 200 ms before that call (the persistence channels flush when idle) (a release or an expiry whose record
+				// may still be on its way to the file) legitimately differs between the two until that
+				// record lands; such keys are left out here (every other key, and every crash point, is
+				// compared in full)
+				for k := range inFlux(rr.h, sos.D.J[p.j].Step, sos.D.J[p.j].Step) {
 					if p.swith[k] != nil || p.swo[k] != nil {
 						w.probe("compaction_keys_in_flux_left_out")
 					}
@@ -387,7 +404,7 @@ func init() {
 }
 
 // inFlux: keys ("db/key" as in canonSnapshot) on which some request was answered (grant, release,
-// expiry notice) between 1.5 s before the scheduler step fromStep and 100 ms after toStep.
+// expiry notice) between 200 ms before the scheduler step fromStep and 100 ms after toStep.
 func inFlux(h *History, fromStep, toStep uint64) map[string]bool {
 	var tFrom, tTo time.Time
 	for _, r := range h.order {
@@ -409,7 +426,7 @@ func inFlux(h *History, fromStep, toStep uint64) map[string]bool {
 	out := map[string]bool{}
 	for _, r := range h.order {
 		for _, rep := range r.Replies {
-			if rep.T.Before(tFrom.Add(-1500 * time.Millisecond)) {
+			if rep.T.Before(tFrom.Add(-200 * time.Millisecond)) {
 				continue
 			}
 			if !tTo.IsZero() && rep.T.After(tTo.Add(100*time.Millisecond)) {
